@@ -215,15 +215,21 @@ def deliteral (tbl : ClassTable) (v : Ty) : Ty :=
   | .seq c _ => .typed c
   | t => t
 
-/-- `is_overlapping(pattern, value)` (value.py:3381) for a `value` that is not a union (the members
-`constrain_value` iterates over); a union pattern is decomposed with the operands swapped. -/
+/-- `is_overlapping(pattern, value)` (value.py:3381). A non-empty union on the left is decomposed
+with the operands swapped, so a union `value` (the pattern a previous constraint of an AND returned) is
+decomposed in the nested call; members of a union are never unions themselves. -/
 def overlapping (tbl : ClassTable) (pat v : Ty) : Bool :=
   let r := deliteral tbl v
   match deliteral tbl pat with
   | .union (p :: ps) =>
     (p :: ps).any fun q =>
       let q' := deliteral tbl q
-      ca tbl false r q' || ca tbl false q' r
+      match r with
+      | .union (w :: ws) =>
+        (w :: ws).any fun x =>
+          let x' := deliteral tbl x
+          ca tbl false q' x' || ca tbl false x' q'
+      | _ => ca tbl false r q' || ca tbl false q' r
   | l => ca tbl false l r || ca tbl false r l
 
 /-- `is_universally_assignable(value, target)` (predicates.py:32) -/
